@@ -15,7 +15,11 @@ build_coq() {
   if [ ! -f Makefile ] || [ _CoqProject -nt Makefile ]; then
     coq_makefile -f _CoqProject -o Makefile >/dev/null
   fi
-  timeout 3000 make -j"$JOBS" >"$ROOT/.cache/coq-build.log" 2>&1 || { tail -40 "$ROOT/.cache/coq-build.log"; exit 1; }
+  # -k: a proof file that no longer checks (say, because a table regenerated from the source changed)
+  # must not keep the model and the monitors from being built: the check of the property whose cone
+  # contains that file reports it (tools/verif.py: proof_status); the build fails only when the
+  # model / monitors themselves cannot be extracted (build_ocaml).
+  timeout 3000 make -k -j"$JOBS" >"$ROOT/.cache/coq-build.log" 2>&1 || echo "build.sh: some Coq files do not check, see .cache/coq-build.log (continuing)"
 }
 
 build_ocaml() {
